@@ -1,9 +1,13 @@
 #!/bin/bash
-# Offline setup after a fresh restore: pre-build the checker (warms the Go build cache).
+# Offline setup after a fresh restore: pre-build every checker binary (warms the Go build cache,
+# including the -race build and the sync-shim overlay build used by C18).
 set -u
 cd "$(dirname "$0")"
 export GOFLAGS=-mod=mod GOPROXY=off
 unset GOTOOLCHAIN 2>/dev/null || true
 mkdir -p .work evidence evidence/replay
 go build -o .work/check-setup ./cmd/check || exit 1
+go run ./cmd/mkoverlay /repo "$(pwd)" .work/ovl-setup > /dev/null || exit 1
+go build -tags verifshim -overlay .work/ovl-setup/overlay.json -o .work/check18-setup ./cmd/check18 || exit 1
+go build -race -o .work/check18race-setup ./cmd/check18race || echo "warning: -race build unavailable; C18 runs without its auxiliary race pass"
 echo "setup ok"
